@@ -82,6 +82,7 @@ def _verify_one(args):
     info = dict(file=file, qualname=qual, lines=list(fi.lines), sha256=fi.sha256, dropped=fi.dropped,
                 obligations=len(ex.obls), paths=ex.n_paths, notes=ex.notes)
     info['used_spec_lemmas'] = sorted(getattr(ex, 'used_specs', ()))
+    info['vacuity'] = list(getattr(ex, 'vacuity', []))
     return dict(info=info, obls=[ObRec(o) for o in ex.obls], assumptions=list(REG.assumptions))
 
 def _mutant_one(args):
@@ -147,7 +148,7 @@ def _module_mutant_one(args):
 def _pool():
     import multiprocessing as mp
     from concurrent.futures import ProcessPoolExecutor
-    return ProcessPoolExecutor(max_workers=int(os.environ.get('PYVC_JOBS', '8')), mp_context=mp.get_context('fork'))
+    return ProcessPoolExecutor(max_workers=int(os.environ.get('PYVC_JOBS', '14')), mp_context=mp.get_context('fork'))
 
 def verify_functions(prop, mod, res, tier):
     """generate and discharge obligations for every function under contract of this property (one process per function)"""
@@ -159,10 +160,16 @@ def verify_functions(prop, mod, res, tier):
         if not o['obls']: res.errors.append('%s::%s generated zero obligations' % (o['info']['file'], o['info']['qualname']))
         res.functions.append(o['info']); res.obls.extend(o['obls'])
         for a in o['assumptions']: REG.assume(a)
+        for why in o['info'].get('vacuity', []): res.errors.append('vacuous proof in %s: %s' % (o['info']['qualname'], why))
         # a spec-sequence lemma used as a hypothesis must be proved in this run (the module lists the sequence in SPECSEQS)
-        listed = {s_.name for s_ in getattr(mod, 'SPECSEQS', [])}
+        listed = {s_.name for s_ in getattr(mod, 'SPECSEQS', [])} | set(getattr(res, 'extra_specs', ()))
         for nm in o['info'].get('used_spec_lemmas', []):
-            if nm not in listed: res.errors.append('%s uses the nth lemma of %s, which props/%s.py does not list in SPECSEQS (unproved hypothesis)' % (o['info']['qualname'], nm, prop))
+            if nm in listed: continue
+            sp_ = speclib._REGISTRY.get(nm)
+            if sp_ is None: res.errors.append('%s uses the nth lemma of %s, which is not a registered spec sequence (unproved hypothesis)' % (o['info']['qualname'], nm)); continue
+            res.extra_specs = set(getattr(res, 'extra_specs', ())) | {nm}
+            for name, h, g in sp_.lemma_obligations():
+                res.obls.append(solve.Obligation('%s/%s' % (prop, name), h, g, kind='lemma', function='speclib'))
 
 def run_mutants(prop, mod, res):
     """must-fail self-test: in-memory mutants of the real functions; each must make its named obligation fail"""
